@@ -37,6 +37,10 @@ var CRLBehaviours = []string{
 	"delta-ok", "delta-lists", "delta-removes", "delta-num-lt", "delta-num-eq",
 	"delta-ind-lt", "delta-ind-eq", "delta-ind-gt", "delta-no-ind",
 	"delta-wrong-signer", "delta-expired", "delta-no-nextupdate", "delta-crit-ext",
+	// an authentic, current delta that carries a freshest-CRL extension naming
+	// its own location (RFC 5280 forbids the extension in a delta; whether such
+	// a delta counts is not settled - but asking for it must end)
+	"delta-names-itself",
 	// a delta whose thisUpdate is EARLIER than the base's (the producer of a
 	// delta picks that field): authentic and current, or not
 	"delta-older-ok", "delta-older-wrong-signer", "delta-older-expired", "delta-older-forged-remove",
@@ -63,7 +67,7 @@ func CRLClass(beh string) string {
 		return CRLOK
 	case "lists", "lists-hold", "delta-lists":
 		return CRLRevoked
-	case "other-crit-entry":
+	case "other-crit-entry", "delta-names-itself":
 		return CRLEither
 	}
 	return CRLBad
@@ -314,6 +318,8 @@ func (k *Kit) buildCRL(beh string, slot int) *CRLSet {
 		delta.NextUpdate = time.Time{}
 	case "delta-crit-ext":
 		delta.UnknownCrit = true
+	case "delta-names-itself":
+		delta.FreshestRaw = pki.CDPDER([]string{k.F.DeltaURL(k.Pos, slot, 0)})
 	case "delta-no-number":
 		delta.Number = nil
 	case "base-no-number-delta":
